@@ -2,6 +2,8 @@ import Iota.Driver.Util
 import Iota.Gen.B1T6
 import Iota.Gen.Pow
 import Iota.Gen.Curl
+import Iota.Gen.Bech32
+import Iota.Gen.Ed
 
 /-!
 Translation validation by execution: these ops run the definitions that cmd/extract GENERATED from the Go source
@@ -117,6 +119,79 @@ def ops : List (String × Handler) := [
         | none => "panic"
         | some r => s!"ok {r.toInt}"
       | _, _, _ => badOp
+    | _ => badOp),
+  ("gen.b32.polymod", fun
+    | [h] => match bytesOfHex h with
+      | some v => s!"ok {(Gen.Bech32.bech32Polymod (bvOfBytes v)).toInt}"
+      | none => badOp
+    | _ => badOp),
+  ("gen.b32.hrpexpand", fun
+    | [h] => match bytesOfHex h with
+      | some v => s!"ok {hexOfBytes (bytesOfBv (Gen.Bech32.bech32HrpExpand (bvOfBytes v)))}"
+      | none => badOp
+    | _ => badOp),
+  ("gen.b32.create", fun
+    | [h, d] => match bytesOfHex h, bytesOfHex d with
+      | some hrp, some blocks => s!"ok {hexOfBytes (bytesOfBv (Gen.Bech32.bech32CreateChecksum (bvOfBytes hrp) (bvOfBytes blocks)))}"
+      | _, _ => badOp
+    | _ => badOp),
+  ("gen.b32.verify", fun
+    | [h, d] => match bytesOfHex h, bytesOfHex d with
+      | some hrp, some data => s!"ok {Gen.Bech32.bech32VerifyChecksum (bvOfBytes hrp) (bvOfBytes data)}"
+      | _, _ => badOp
+    | _ => badOp),
+  ("gen.base32.len", fun
+    | [n] => match n.toInt? with
+      | some n => s!"ok {(Gen.Bech32.base32.EncodedLen (BitVec.ofInt 64 n)).toInt} {(Gen.Bech32.base32.DecodedLen (BitVec.ofInt 64 n)).toInt}"
+      | none => badOp
+    | _ => badOp),
+  ("gen.base32.enc", fun
+    | [n, h] => match n.toNat?, bytesOfHex h with
+      | some n, some src => match Gen.Bech32.base32.Encode (List.replicate n 0x55#8) (bvOfBytes src) with
+        | none => "panic"
+        | some (k, dst) => s!"n={k.toInt} dst={hexOfBytes (bytesOfBv dst)}"
+      | _, _ => badOp
+    | _ => badOp),
+  ("gen.base32.dec", fun
+    | [n, h] => match n.toNat?, bytesOfHex h with
+      | some n, some src => match Gen.Bech32.base32.Decode (List.replicate n 0x55#8) (bvOfBytes src) with
+        | none => "panic"
+        | some (k, e, dst) =>
+          let es := match e with | none => "nil" | some (name, off) => s!"{name}@{off.toInt}"
+          s!"n={k.toInt} err={es} dst={hexOfBytes (bytesOfBv dst)}"
+      | _, _ => badOp
+    | _ => badOp),
+  ("gen.chars.new", fun
+    | [h] => match bytesOfHex h with
+      | some a => match Gen.Bech32.chars.newEncoding (bvOfBytes a) with
+        | none => "panic"
+        | some (enc, dec) => s!"ok {hexOfBytes (bytesOfBv enc)} {hexOfBytes (bytesOfBv dec)}"
+      | none => badOp
+    | _ => badOp),
+  ("gen.chars.enc", fun
+    | [h] => match bytesOfHex h with
+      | some src => match Gen.Bech32.chars.newEncoding (Gen.Bech32.charset.map (BitVec.ofNat 8)) with
+        | none => "panic-new"
+        | some (enc, _) => match Gen.Bech32.chars.encoding_encode enc (bvOfBytes src) with
+          | none => "panic"
+          | some r => s!"ok {hexOfBytes (bytesOfBv r)}"
+      | none => badOp
+    | _ => badOp),
+  ("gen.chars.dec", fun
+    | [h] => match bytesOfHex h with
+      | some src => match Gen.Bech32.chars.newEncoding (Gen.Bech32.charset.map (BitVec.ofNat 8)) with
+        | none => "panic-new"
+        | some (_, dec) => match Gen.Bech32.chars.encoding_decode dec (bvOfBytes src) with
+          | none => "panic"
+          | some (r, e) => s!"ok {hexOfBytes (bytesOfBv r)} err={errStr e}"
+      | none => badOp
+    | _ => badOp),
+  ("gen.vrf.canon", fun
+    | [h] => match bytesOfHex h with
+      | some x => match Gen.Ed.vrf.isCanonicalY (bvOfBytes x) with
+        | none => "panic"
+        | some b => s!"ok {b}"
+      | none => badOp
     | _ => badOp),
   -- a fresh sponge: Reset, Absorb(src, a), Squeeze(len(dst) = k lanes, s); all through the generated code
   ("gen.curl.sponge", fun
